@@ -90,8 +90,17 @@ static const char* objname(int id) {
   return (id >= 0 && id <= 9) ? nm[id] : "?";
 }
 
+static volatile int in_child;
+
 static void ev_add(int kind, int a, int b) {
   int n = SH->ntr;
+  if (n > 8 * MAXEV && !in_child) {
+    /* control flow is re-executing old code (a jump into a dead buffer): nothing after this can be trusted */
+    vf.aborted = 1;
+    vf_violation("exc/runaway-control-flow", NULL, "more than %d trace events in one program: execution is looping through stale jump buffers", 8 * MAXEV);
+    vf_write();
+    _exit(0);
+  }
   if (n < MAXEV) {
     volatile struct ev* e = &SH->tr[n];
     e->kind = (unsigned char)kind; e->a = (signed char)a; e->b = (signed char)b;
@@ -292,8 +301,8 @@ static int dig(char c, int max) { return (c >= '0' && c - '0' <= max) ? c - '0' 
 /* parses one program at s; returns pointer past it or NULL */
 static const char* get_prog(const char* s, struct prog* p) {
   prog_init(p);
-  /* k?d?.sh??.dy??.p???.s????-????-????.f??? = 43 chars */
-  if (strlen(s) < 43) return NULL;
+  /* k?d?.sh??.dy??.p???.s????-????-????.f??? = 40 chars */
+  if (strlen(s) < 40) return NULL;
   if (s[0] != 'k' || s[2] != 'd' || strncmp(s + 4, ".sh", 3) || strncmp(s + 9, ".dy", 3) ||
       strncmp(s + 14, ".p", 2) || strncmp(s + 19, ".s", 2) || s[25] != '-' || s[30] != '-' || strncmp(s + 35, ".f", 2)) return NULL;
   int bad = 0;
@@ -392,7 +401,7 @@ static char* render_trace(const struct ev* t, int n) {
 static int ev_same(const struct ev* e, const struct ev* a) {
   if (e->kind != a->kind) return 0;
   if (e->kind == 'N' || e->kind == 'Z') return e->depth == a->depth;
-  if (e->kind == 'U') return e->b == a->b;
+  if (e->kind == 'U') return e->b == a->b || a->b == 9;   /* 9: the diagnostic names no object we recognise - not judged */
   return e->a == a->a && e->b == a->b && e->depth == a->depth;
 }
 
@@ -496,15 +505,20 @@ static int odo_next(void) {
 
 static uint64_t enum_total;
 
+/* the cursor lives in static storage: a longjmp through a stale buffer restores registers and
+** must not be able to rewind the enumeration (a broken library would otherwise livelock it) */
+static volatile uint64_t idx;
+static volatile int dy, sh, nsh, ndy;
+static volatile uint64_t visited;
+
 static void enum_all(void (*visit)(void)) {
-  uint64_t idx = 0;
-  int nsh = 1, ndy = 1;
+  idx = 0; nsh = 1; ndy = 1;
   if (p_kind == K_CHAIN && p_depth > 1) {
     nsh = shapes_all ? 1 << (p_depth - 1) : 1;
     ndy = dyns_all ? 1 << (p_depth - 1) : 1;
   }
-  for (int dy = 0; dy < ndy; dy++) {
-    for (int sh = 0; sh < nsh; sh++) {
+  for (dy = 0; dy < ndy; dy++) {
+    for (sh = 0; sh < nsh; sh++) {
       prog_init(&Q);
       Q.kind = p_kind; Q.depth = p_kind == K_CHAIN ? p_depth : p_kind == K_SEQ ? 1 : 2;
       Q.shape[0] = sh & 1; Q.shape[1] = (sh >> 1) & 1;
@@ -512,7 +526,7 @@ static void enum_all(void (*visit)(void)) {
       build_slots();
       do {
         if (shard_n == 1 || (int)(((idx * 0x9E3779B97F4A7C15ULL) >> 33) % (uint64_t)shard_n) == shard_k) {   /* deterministic, radix-independent split */
-          if ((idx & 0x3fff) == 0) { vf_watchdog(60); if (vf_deadline_hit()) return; }
+          if ((visited++ & 0x3ff) == 0) { vf_watchdog(30); if (vf_deadline_hit()) return; }
           visit();
           if (vf.aborted) return;
         }
@@ -532,6 +546,14 @@ static void note_residual(struct rep* tab, int* n, int depth, int active, int ob
   for (int i = 0; i < *n; i++) if (tab[i].depth == depth && tab[i].active == active && tab[i].obj == obj) { tab[i].seen++; return; }
   if (!ok || *n >= 32) return;          /* representatives are programs that agreed with the reference */
   tab[*n].depth = depth; tab[*n].active = active; tab[*n].obj = obj; tab[*n].p = *p; tab[*n].seen = 1; (*n)++;
+}
+
+/* a program that leaves the nesting depth wrong has been reported by compare(); put the record back
+** (white-box) so that the following programs do not run on stale jump buffers */
+static uint64_t record_repairs;
+static void repair_record(void) {
+  struct Exception* e = current(Exception);
+  if (e->depth != 0) { e->depth = 0; e->active = false; record_repairs++; }
 }
 
 /* ---- visitors -------------------------------------------------------------------------- */
@@ -577,6 +599,7 @@ static void visit_main(void) {
     if (z->kind == 'Z') note_residual(rep_out, &nrep_out, z->depth, z->a, z->b, &Q, ok);
     if (n >= 2 && SH->tr[n - 2].kind == 'N') note_residual(rep_in, &nrep_in, SH->tr[n - 2].depth, SH->tr[n - 2].a, SH->tr[n - 2].b, &Q, ok);
   }
+  repair_record();
   if (ok && vf_want_sample()) vf_sample("%s  => %s", render_prog(&Q), render_trace((const struct ev*)SH->tr, SH->ntr));
 }
 
@@ -586,6 +609,7 @@ static void visit_chain(void) {
   if (chain_mode == 0) {
     set_cur("chout", &PRE, &Q);
     exec_sent(&PRE, NULL);
+    repair_record();
     ref_sent(&Q, NULL);
     exec_sent(&Q, NULL);
     vf.executions += 2;
@@ -599,6 +623,7 @@ static void visit_chain(void) {
   }
   vf.transitions++;
   track_depth();
+  repair_record();
 }
 
 /* fresh thread */
@@ -622,6 +647,7 @@ static int child_wfd;
 static uint64_t fork_escaping, fork_named;
 
 static void child_fn(void* arg) {
+  in_child = 1;
   dup2(child_wfd, 2);
   close(child_wfd);
   SH->ntr = 0;
@@ -658,8 +684,12 @@ static void visit_fork(void) {
   if (n < MAXEV) {
     if (r.signaled) { SH->tr[n].kind = '$'; SH->tr[n].a = (signed char)r.sig; SH->tr[n].b = 0; SH->tr[n].depth = 0; SH->ntr = n + 1; }
     else if (r.exited && r.status != 0 && u) {
-      int id = 9;
-      if (strncmp(u + 9, "ExcA", 4) == 0) id = 1; else if (strncmp(u + 9, "ExcB", 4) == 0) id = 2; else if (strncmp(u + 9, "ExcC", 4) == 0) id = 3;
+      /* which object does the diagnostic name?  (only judged when exactly one of ours appears) */
+      int id = 9, hits = 0;
+      if (strstr(u, "ExcA")) { id = 1; hits++; }
+      if (strstr(u, "ExcB")) { id = 2; hits++; }
+      if (strstr(u, "ExcC")) { id = 3; hits++; }
+      if (hits != 1) id = 9;
       named = id != 9;
       SH->tr[n].kind = 'U'; SH->tr[n].a = 0; SH->tr[n].b = (signed char)id; SH->tr[n].depth = 0; SH->ntr = n + 1;
     }
@@ -708,7 +738,10 @@ static void do_replay(const char* c) {
   if (!s) { fprintf(stderr, "replay: cannot parse program in '%s'\n", c); exit(2); }
   int two = 0;
   if (*s == '+') { s = get_prog(s + 1, &b); if (!s) { fprintf(stderr, "replay: cannot parse second program\n"); exit(2); } two = 1; }
-  printf("mode %s\nprogram: %s\n", mode, render_prog(&a));
+  printf("mode %s (%s)\nprogram: %s\n", mode,
+    strcmp(mode, "nosent") == 0 ? "no sentinel, forked child" : strcmp(mode, "chin") == 0 ? "sentinel try { first ; second } catch (e) { }" :
+    strcmp(mode, "chout") == 0 ? "first and second program each in its own sentinel try/catch-all; the second is judged" :
+    "inside an outermost sentinel try { ... } catch (e) { }", render_prog(&a));
   if (two) printf("then:    %s\n", render_prog(&b));
   vf_watchdog(60);
   if (strcmp(mode, "sent") == 0) { Q = a; visit_main(); show_both(); }
@@ -773,6 +806,7 @@ int main(int argc, char** argv) {
     vf_extra("uncaught_diagnostic_names_the_object", "%" PRIu64, fork_named);
   }
   vf_watchdog(0);
+  if (record_repairs) vf_note("the exception record was left with a non-zero depth %" PRIu64 " times and was reset to keep exploring", record_repairs);
 
   char rs[1024]; size_t o = 0; rs[0] = 0;
   for (int i = 0; i < nrep_out; i++) o += (size_t)snprintf(rs + o, sizeof rs - o, "%s(depth=%d,active=%d,obj=%s)x%" PRIu64, i ? " " : "", rep_out[i].depth, rep_out[i].active, objname(rep_out[i].obj), rep_out[i].seen);
